@@ -48,3 +48,10 @@ import PyodaProofs.GenAgreeC05
 #print axioms Pyoda.GenAgree.C05.gen_Precalc_getZoneIntervalNoTail_loop1_eq
 #print axioms Pyoda.GenAgree.C05.gen_Precalc_getZoneIntervalTail_loop1_eq
 #print axioms Pyoda.GenAgree.C05.gen_Precalc_getZoneIntervalTail_eq
+#print axioms Pyoda.GenAgree.C05.gen_ZoneLocalMapping_count_eq
+#print axioms Pyoda.GenAgree.C05.gen_ZoneLocalMapping_first_eq
+#print axioms Pyoda.GenAgree.C05.gen_ZoneLocalMapping_last_eq
+#print axioms Pyoda.GenAgree.C05.gen_ZoneLocalMapping_single_eq
+#print axioms Pyoda.GenAgree.C05.gen_first_is_model
+#print axioms Pyoda.GenAgree.C05.gen_last_is_model
+#print axioms Pyoda.GenAgree.C05.gen_single_is_model
